@@ -62,6 +62,40 @@ def gen_cases(c):
     return cases, ncorpus, nex, nrand
 
 
+def interp_part(c, vdriver, cases, model):
+    import re
+    safe = re.compile(rb'^[A-Za-z0-9.* _-]*$')
+    sel = []
+    for (d, n), mo in zip(cases, model):
+        m = dict(kv.split('=') for kv in mo.split())
+        if m.get('wf') == '1' and n and safe.match(d) and re.match(rb'^[A-Za-z0-9._-]+$', n) and d.strip():
+            sel.append((d, n, m['spec']))
+    # add the descriptor forms of the Recommendation explicitly (trailing '.', '.*', lists)
+    for d in (b'foo.', b'foo.*', b'foo', b'foo. bar', b'foo.bar.', b'error.', b'*', b'a.b. c'):
+        for n in (b'foo', b'foo.bar', b'foo.bar.baz', b'foobar', b'bar', b'error.execution', b'a.b', b'c.d'):
+            sel.append((d, n, None))
+    cap = 1500 if c.tier == 'quick' else 20000
+    if len(sel) > cap:
+        step = len(sel) / float(cap)
+        sel = [sel[int(i * step)] for i in range(cap)] + sel[-64:]
+    vmn = ensure_vmodel('namematch')
+    need = [i for i, x in enumerate(sel) if x[2] is None]
+    if need:
+        oo, _ = run_lines_sharded(vmn, ['match 0 0 %s %s' % (hexs(sel[i][0]), hexs(sel[i][1])) for i in need])
+        for i, o in zip(need, oo):
+            sel[i] = (sel[i][0], sel[i][1], dict(kv.split('=') for kv in o.split())['spec'])
+    fail = {}
+    for eng in ('large', 'fast'):
+        out, _ = run_lines_sharded(vdriver, ['matchi %s %s %s' % (eng, hexs(d), hexs(n)) for d, n, _ in sel])
+        for (d, n, spec), io in zip(sel, out):
+            if io in ('0', '1') and io != spec:
+                if eng not in fail or len(d) + len(n) < len(fail[eng][0]) + len(fail[eng][1]):
+                    fail[eng] = (d, n, io, spec)
+    c.cov['interpreter_match_cases'] = 2 * len(sel)
+    c.cov['evaluations'] = c.cov.get('evaluations', 0) + 2 * len(sel)
+    return fail
+
+
 def trie_part(c, vdriver):
     import itertools
     vm = ensure_vmodel('pmlstep')
@@ -185,6 +219,10 @@ def run(c):
     # word lists in every insertion order (a name before or after its token prefixes), descriptor attributes
     trie_bad, trie_oracle = trie_part(c, vdriver)
 
+    # 1c. the relation as the interpreter applies it (InterpreterImpl::isMatched through both micro-steppers): small
+    # documents, one per (descriptor attribute, event name), for the grammar-conformant part of the exhaustive set
+    interp_fail = interp_part(c, vdriver, cases, model)
+
     # 2. classify
     def shrink_key(x):
         return (len(x[1]) + len(x[2]), x[1], x[2])
@@ -215,6 +253,11 @@ def run(c):
                      'descs': attr.decode('latin-1'), 'name': name.decode('latin-1'), 'resolved_by_Trie_cpp': io, 'model': mo,
                      'expected': 'the words resolved for the descriptor are exactly the inserted names the descriptor matches (name_match_spec)',
                      'replay_cmd': "echo 'trie-impl %s %s' | /verif/.build/vdriver-hooks/vdriver" % (','.join(hexs(w) for w in ws) or '-', hexs(attr))})
+    for eng, (d, n, io, spec) in sorted(interp_fail.items()):
+        c.violation({'kind': 'oracle', 'function': 'InterpreterImpl::isMatched through the %s engine' % eng, 'descs': d.decode('latin-1'), 'name': n.decode('latin-1'),
+                     'expected_by_name_match_spec': spec, 'observed': io,
+                     'document': '<state id="s1"><transition event="%s" target="s2"/></state><state id="s2"/> with event %s' % (d.decode('latin-1'), n.decode('latin-1')),
+                     'replay_cmd': "echo 'matchi %s %s %s' | /verif/.build/vdriver-hooks/vdriver" % (eng, hexs(d), hexs(n))})
     if trie_bad and not trie_oracle:
         ws, attr, io, mo = trie_bad[0]
         c.violation({'kind': 'correspondence', 'function': 'Trie', 'count': len(trie_bad), 'words_in_insertion_order': [w.decode('latin-1') for w in ws],
